@@ -48,6 +48,8 @@ pub struct GenCfg {
     /// top-level profile: pure global functions, initialisers that call functions, at most one initialiser
     /// with effects (prints / assigns mutable globals)
     pub toplevel_calls: bool,
+    /// blob fields whose type is an earlier blob (nested literals, `a.b.c` reads, `a.b.m()` calls)
+    pub nested_blobs: bool,
     /// boundary literals
     pub extreme_literals: bool,
 }
@@ -85,6 +87,7 @@ impl GenCfg {
             long_bodies: 0,
             many_globals: 0,
             toplevel_calls: false,
+            nested_blobs: true,
             extreme_literals: true,
         }
     }
@@ -492,6 +495,16 @@ impl<'t, 'a, 'b> Gen<'t, 'a, 'b> {
                             cands.push((v.clone(), f.name.clone(), ps.clone()));
                         }
                     }
+                    if let Ty::Blob(c) = &f.ty {
+                        // a method of a blob-typed field: `v.f.m(..)`
+                        for g in &self.p.blobs[*c].fields {
+                            if let Ty::Fn(ps, r, pure) = &g.ty {
+                                if &**r == ret && (!ctx.pure || *pure) {
+                                    cands.push((v.clone(), format!("{}.{}", f.name, g.name), ps.clone()));
+                                }
+                            }
+                        }
+                    }
                 }
             }
         }
@@ -499,13 +512,26 @@ impl<'t, 'a, 'b> Gen<'t, 'a, 'b> {
             return None;
         }
         let (v, name, ps) = self.t.pick(&cands).clone();
-        let fty = match &v.ty {
-            Ty::Blob(b) => self.p.blobs[*b].fields.iter().find(|f| f.name == name).unwrap().ty.clone(),
-            _ => unreachable!(),
+        let field_ty = |p: &Program, t: &Ty, n: &str| -> Ty {
+            match t {
+                Ty::Blob(b) => p.blobs[*b].fields.iter().find(|f| f.name == n).map(|f| f.ty.clone()).unwrap_or(Ty::Int),
+                _ => Ty::Int,
+            }
         };
         let args: Vec<Expr> = ps.iter().map(|pt| self.expr_c(pt, depth.saturating_sub(1), ctx)).collect();
         self.cost(ctx, 2);
-        let callee = e(fty, EKind::Field(Box::new(var(&self.p, v.id)), name));
+        let callee = match name.split_once('.') {
+            Some((outer, inner)) => {
+                let oty = field_ty(&self.p, &v.ty, outer);
+                let fty = field_ty(&self.p, &oty, inner);
+                let base = e(oty, EKind::Field(Box::new(var(&self.p, v.id)), outer.to_string()));
+                e(fty, EKind::Field(Box::new(base), inner.to_string()))
+            }
+            None => {
+                let fty = field_ty(&self.p, &v.ty, &name);
+                e(fty, EKind::Field(Box::new(var(&self.p, v.id)), name))
+            }
+        };
         Some(e(ret.clone(), EKind::Call(Box::new(callee), args)))
     }
 
@@ -517,6 +543,14 @@ impl<'t, 'a, 'b> Gen<'t, 'a, 'b> {
             }
             if let Ty::Blob(b) = &v.ty {
                 for f in &self.p.blobs[*b].fields {
+                    if let Ty::Blob(c) = &f.ty {
+                        // a field of a blob-typed field: `v.f.g`
+                        for g in &self.p.blobs[*c].fields {
+                            if &g.ty == ty {
+                                cands.push((v.clone(), format!("{}.{}", f.name, g.name)));
+                            }
+                        }
+                    }
                     if &f.ty == ty {
                         cands.push((v.clone(), f.name.clone()));
                     }
@@ -528,7 +562,17 @@ impl<'t, 'a, 'b> Gen<'t, 'a, 'b> {
         }
         let (v, name) = self.t.pick(&cands).clone();
         self.cost(ctx, 1);
-        Some(e(ty.clone(), EKind::Field(Box::new(var(&self.p, v.id)), name)))
+        match name.split_once('.') {
+            Some((outer, inner)) => {
+                let oty = match &v.ty {
+                    Ty::Blob(b) => self.p.blobs[*b].fields.iter().find(|f| f.name == outer).map(|f| f.ty.clone()).unwrap_or(Ty::Int),
+                    _ => Ty::Int,
+                };
+                let base = e(oty, EKind::Field(Box::new(var(&self.p, v.id)), outer.to_string()));
+                Some(e(ty.clone(), EKind::Field(Box::new(base), inner.to_string())))
+            }
+            None => Some(e(ty.clone(), EKind::Field(Box::new(var(&self.p, v.id)), name))),
+        }
     }
 
     fn tuple_index(&mut self, ty: &Ty, ctx: &mut FnCtx) -> Option<Expr> {
@@ -1748,9 +1792,15 @@ impl<'t, 'a, 'b> Gen<'t, 'a, 'b> {
         let nf = self.t.below(4) + 1;
         let mut fields = Vec::new();
         for i in 0..nf {
-            let ty = if self.t.chance(1, 5) { self.value_ty(1) } else { self.scalar_ty() };
+            let ty = if self.cfg.nested_blobs && idx > 0 && self.t.chance(1, 4) {
+                Ty::Blob(self.t.below(idx))
+            } else if self.t.chance(1, 5) {
+                self.value_ty(1)
+            } else {
+                self.scalar_ty()
+            };
             let ty = match ty {
-                Ty::Blob(_) | Ty::Enum(_) => Ty::Int,
+                Ty::Blob(_) | Ty::Enum(_) if !self.cfg.nested_blobs => Ty::Int,
                 t => t,
             };
             let name = if self.cfg.lexical_names && self.t.chance(1, 2) {
